@@ -29,8 +29,11 @@ class Models:
         self.prog = prog
         self.table = {}
         self.allow_havoc_mut = set()
+        self.opaque_bodies = set()     # crate-local callees deliberately treated as havoc (listed in evidence)
         self.havoc_overrides = {}
         register_core(self)
+        from . import models_async
+        models_async.register(self)
 
     def reg(self, *keys):
         def deco(f):
